@@ -71,14 +71,35 @@ func c06(c *core.Ctx) {
 			// which field is "the receive size the peer advertised" depends on the side: the client holds the
 			// server's Acknowledge, the server (the only side that handles OpenSecureChannel *requests*) its own
 			// Acknowledge and the client's Hello
-			serverSide := f.Name() == "handleOpenSecureChannelRequest"
-			ok := src[ackRecv] && !serverSide || src[helRecv] && serverSide
-			want := "Acknowledge.ReceiveBufSize of the server's ACK"
-			if serverSide {
-				want = "Hello.ReceiveBufSize of the client"
+			// the call may have been moved into a private helper shared by the three handlers: the obligation (and the
+			// identity of a recorded finding) belongs to the handler, i.e. to each function that calls the helper
+			// (a straight-line function that is handed the instance it configures is such a wrapper; anything with
+			// control flow of its own is a step of the protocol and keeps the obligation)
+			owners := []*ssa.Function{f}
+			if _, handed := ssax.Strip(call.Common().Args[0]).(*ssa.Parameter); handed && len(f.Blocks) == 1 {
+				if cs := ssax.PrivateCallers(f); len(cs) > 0 {
+					owners = nil
+					for _, cc := range cs {
+						dup := false
+						for _, u := range owners {
+							dup = dup || u == cc.Parent()
+						}
+						if !dup {
+							owners = append(owners, cc.Parent())
+						}
+					}
+				}
 			}
-			// the source is part of the finding's identity: replacing one wrong bound by another is a new finding
-			c.Ob("C06.direction", fname(f)+"·SetMaximumBodySize(bound ← "+srcNames(src)+")", pos(c, call), ok, "bound flows from: "+srcNames(src)+" — required: "+want)
+			for _, o := range owners {
+				serverSide := o.Name() == "handleOpenSecureChannelRequest"
+				ok := src[ackRecv] && !serverSide || src[helRecv] && serverSide
+				want := "Acknowledge.ReceiveBufSize of the server's ACK"
+				if serverSide {
+					want = "Hello.ReceiveBufSize of the client"
+				}
+				// the source is part of the finding's identity: replacing one wrong bound by another is a new finding
+				c.Ob("C06.direction", fname(o)+"·SetMaximumBodySize(bound ← "+srcNames(src)+")", pos(c, call), ok, "bound flows from: "+srcNames(src)+" — required: "+want)
+			}
 		}
 	}
 	{
